@@ -714,6 +714,10 @@ func (dm *DagModifier) Seek(offset int64, whence int) (int64, error) {
 		return 0, ErrUnrecognizedWhence
 	}
 
+	if int64(newoffset) < 0 {
+		return 0, errors.New("seek: negative position")
+	}
+
 	if int64(newoffset) > fisize {
 		if err := dm.expandSparse(int64(newoffset) - fisize); err != nil {
 			return 0, err
